@@ -327,7 +327,7 @@ def main():
                         cases["known"].append((kf["id"], entry))
                     else:
                         cases["impl_vs_spec"].append(entry)
-                if model != impl:
+                if model != impl and model != "SKIP":
                     kf = matches_known(prop, request, known, verdict)
                     if kf and verdict.startswith("FAILS"):
                         pass
